@@ -627,7 +627,8 @@ package desync
 //@   ensures $consumed >= old($consumed) && ($consumed == old($consumed) || $consumed < 1<<40)
 
 //@ func (d *FormatDecoder) Next
-//@   prop C19
+//@   prop C19 C04
+//@   safety C19
 //@   checks alloc
 //@   requires $consumed >= 0
 //@   modifies all, $consumed, $rp
@@ -648,7 +649,7 @@ package desync
 //@ func (p *Protocol) ReadMessage
 //@   prop C19
 //@   checks alloc
-//@   modifies all, $consumed
+//@   modifies all, $consumed, $rp
 //@   ensures $consumed >= old($consumed)
 //@   ensures r1 == nil ==> len(r0.Body) + 16 <= $consumed - old($consumed)
 
@@ -679,7 +680,7 @@ package desync
 //@   prop C19
 //@   checks alloc
 //@   requires $consumed >= 0
-//@   modifies all, $consumed
+//@   modifies all, $consumed, $rp
 //@   loop 1: invariant $consumed >= 0
 
 //# the server allocates for chunk data coming from its own store, not from the request stream
@@ -736,7 +737,7 @@ package desync
 
 //@ func (w writer) WriteUint64
 //@   prop C04 C13
-//@   trusted
+//@   trusted ensures
 //@   pure
 //@   modifies $w, $wn
 //@   ensures r1 == nil ==> r0 == 8 * len(values) && $wn == old($wn) + 8 * len(values)
@@ -746,7 +747,7 @@ package desync
 
 //@ func (w writer) WriteID
 //@   prop C04 C13
-//@   trusted
+//@   trusted ensures
 //@   pure
 //@   modifies $wid, $wn
 //@   ensures r1 == nil ==> r0 == 32 && $wn == old($wn) + 32 && $wid[old($wn)] == c
@@ -754,16 +755,20 @@ package desync
 //@   ensures $wn >= old($wn) && r0 >= 0
 
 //@ func (r reader) ReadUint64
-//@   prop C04
-//@   trusted
+//@   prop C04 C19
+//@   safety C19
+//@   checks alloc
+//@   trusted ensures
 //@   pure
 //@   modifies $rp, $consumed
 //@   ensures r1 == nil ==> r0 == $r[old($rp)] && $rp == old($rp) + 8 && $consumed == old($consumed) + 8
 //@   ensures $consumed >= old($consumed) && ($consumed == old($consumed) || $consumed < 1<<40)
 
 //@ func (r reader) ReadID
-//@   prop C04
-//@   trusted
+//@   prop C04 C19
+//@   safety C19
+//@   checks alloc
+//@   trusted ensures
 //@   pure
 //@   modifies $rp, $consumed
 //@   ensures r1 == nil ==> r0 == $rid[old($rp)] && $rp == old($rp) + 32 && $consumed == old($consumed) + 32
